@@ -1,6 +1,7 @@
 import KV.Props.C12
 import KV.Hygiene
 import KV.GenConvProofs
+import KV.Generated.TypeCases
 /-! # C04 — successful generation always yields compilable, hygienic Go
 
 Property statements only.  "Compiles" is a verdict of the Go type checker, which Lean does not contain; what
@@ -144,6 +145,12 @@ theorem C04_types_roundtrip (cur : Nat) (pname : Nat → String) (pool : VP.Pool
 theorem C04_types_total (cur : Nat) (pname : Nat → String) (st : GConv.St) (ts : List GConv.Ty) :
     GConv.renderList cur pname st ts ≠ none :=
   GConv.renderList_total cur pname st ts
+
+/-- `createASTTypeExpr` has a case for every kind of `types.Type` a value can have (regenerated from the type switch of
+    graph.go); the default branch refuses the type with an error instead of guessing a spelling -/
+theorem C04_type_kinds_covered :
+    (["Named", "Alias", "Pointer", "Slice", "Array", "Map", "Chan", "Signature", "Struct", "Interface", "Basic"].all (fun k => Gen.createASTTypeExprCases.contains k)) = true ∧
+    Gen.createASTTypeExprDefault = "nil" := by decide
 
 end C04
 
